@@ -33,7 +33,10 @@ def final_awaiter(ctx, db, rid):
                 recv = ev.get('recv')
                 org = value_origin(f, f.ev(ev.get('recv_ev'))) if ev.get('recv_ev') is not None and f.ev(ev.get('recv_ev')) is not None else None
                 if org is None or norm(org.get('lfield') or '') != FUT:
-                    bad = bad or ('resolve is not called on the bound future (_future)', tr)
+                    # through a helper / a local: follow the value along the trace
+                    op_, _ = origin_in_trace(tr, rs[0], recv)
+                    if not re.search(r'(\.|->)_future$', op_ or ''):
+                        bad = bad or ('resolve is not called on the bound future (_future)', tr)
                 if nonnull_on_trace(tr, rs[0], recv) is not True:
                     bad = bad or ('resolve on an untested _future pointer', tr)
                 if rs[0] > ds[0]:
